@@ -221,6 +221,23 @@ def diff(a, b, pre=""):
     return out
 
 
+def door_dumps(obj, filedoor, **kw):
+    """the two doors of the writer: dumps(obj) / dump(obj, file object)"""
+    if not filedoor:
+        return ccsds.dumps(obj, **kw)
+    import io
+    fp = io.StringIO()
+    ccsds.dump(obj, fp, **kw)
+    return fp.getvalue()
+
+
+def door_loads(text, filedoor):
+    if not filedoor:
+        return ccsds.loads(text)
+    import io
+    return ccsds.load(io.StringIO(text))
+
+
 def main(inp, outp):
     with open(inp) as fh:
         job = json.load(fh)
@@ -238,10 +255,13 @@ def main(inp, outp):
 
     def norm(p):
         return re.sub(r"\d+\.", "", p)
-    for case in job["cases"]:
+    for ci, case in enumerate(job["cases"]):
         cfg, path = case["cfg"], case["path"]
         t = cfg["type"]
-        data = {"cfg": cfg, "path": path, "how": "harness/ccsds_replay.py build(cfg); ccsds.dumps(obj, fmt=f1) -> loads -> dumps(fmt=f2) -> loads"}
+        # every third case goes through the file-object doors (dump / load), another third mixes them
+        fd1, fd2 = ci % 3 == 1, ci % 3 in (1, 2)
+        data = {"cfg": cfg, "path": path, "file_object_doors": [fd1, fd2],
+                "how": "harness/ccsds_replay.py build(cfg); ccsds.dumps(obj, fmt=f1) [or dump(obj, fp)] -> loads [load(fp)] -> dumps(fmt=f2) -> loads"}
         config["io"] = {}
         try:
             obj = build(cfg)
@@ -254,14 +274,14 @@ def main(inp, outp):
         try:
             if path["src"] == "config":
                 config["io"] = {"ccsds_default_format": path["f1"]}
-                txt1 = ccsds.dumps(obj)
+                txt1 = door_dumps(obj, fd1)
                 config["io"] = {}
             else:
-                txt1 = ccsds.dumps(obj, fmt=path["f1"])
+                txt1 = door_dumps(obj, fd1, fmt=path["f1"])
             isxml = txt1.lstrip().startswith("<")
             clause("the encoding follows the fmt argument / the configured default", isxml == (path["f1"] == "xml"), f"ccsds/{t}-format",
                    f"asked {path['f1']} via {path['src']}, got {'xml' if isxml else 'kvn'}", data)
-            back1 = ccsds.loads(txt1)
+            back1 = door_loads(txt1, fd2)
         except Exception as e:
             clause("dumps then loads completes", False, f"ccsds/{t}-{path['f1']}-raises[{type(e).__name__}]", f"{type(e).__name__}: {e} for {cfg} {path}", data)
             continue
@@ -271,8 +291,8 @@ def main(inp, outp):
                    "values and frame, maneuvers, interpolation settings, user-defined fields)", p is None,
                    f"ccsds/{t}-{path['f1']}:{p}", f"{t} {path['f1']}: field {p} not restored ({[x for x in d1 if norm(x) == p][:3]}) for {cfg}", data)
         try:
-            txt2 = ccsds.dumps(back1, fmt=path["f2"])
-            back2 = ccsds.loads(txt2)
+            txt2 = door_dumps(back1, fd2, fmt=path["f2"])
+            back2 = door_loads(txt2, fd1)
         except Exception as e:
             clause("anything that was read can be written again and read back", False, f"ccsds/{t}-redump-{path['f2']}-raises[{type(e).__name__}]",
                    f"{type(e).__name__}: {e} for {cfg} {path}", data)
